@@ -23,7 +23,7 @@ TIERS = {
 MIN = {"quick": {"C07.PythonRegex.__init__": 500, "C07.accepts": 30000},
        "thorough": {"C07.PythonRegex.__init__": 20000, "C07.accepts": 1000000}}
 
-MECH = {"negset_shortcut", "negset_escape", "negset_leading_dash", "set_shortcut_then_meta", "escaped_blank",
+MECH = {
         "empty_group", "empty_alternative"}
 SHADOW = weakref.WeakKeyDictionary()    # PythonRegex -> (compiled re, pattern text, feature tags)
 
